@@ -306,7 +306,30 @@ def report():
         print(k, tab[k])
     print("\nSURVIVORS (check passed, tests passed): equivalent mutant or gap")
     for r in surv:
-        print(f"  {r['id']} {r['file']}:{r['line']} [{r['op']}] {r['text'][:110]}")
+        cx = r.get("cross")
+        tag = "" if cx is None else (" caught-by:" + ",".join(q for q, c in cx.items() if c["rc"] == 1) if any(c["rc"] == 1 for c in cx.values()) else " (no neighbour catches it)")
+        print(f"  {r['id']} {r['file']}:{r['line']} [{r['op']}] {r['text'][:110]}{tag}")
+
+
+def cross(slot="x0"):
+    """survivors re-run against every OTHER property anchored in the same file (a mutant in a shared file may belong to a neighbour)"""
+    import mutcheck
+
+    index = json.load(open(os.path.join(OUT, "index.json")))
+    anc = anchors()
+    mutcheck.sync(f"/tmp/verif_iso_{slot}")
+    for m in index:
+        p = os.path.join(OUT, m["id"] + ".json")
+        if not os.path.exists(p):
+            continue
+        r = json.load(open(p))
+        if r.get("rc") != 0 or "passed" not in str(r.get("tests")) or "failed" in str(r.get("tests")) or "cross" in r:
+            continue
+        others = sorted(q for q, rr in anc.items() if q != m["prop"] and any(f == m["file"] for f, _, _ in rr))
+        res = mutcheck.run(slot, m["patch"], others, jobs=6).get("checks", {}) if others else {}
+        r["cross"] = {q: {"rc": c.get("rc"), "what": (c.get("what") or "")[:200]} for q, c in res.items()}
+        json.dump(r, open(p, "w"), indent=1)
+        print(m["id"], m["file"], m["line"], m["op"], "->", {q: c["rc"] for q, c in r["cross"].items()}, flush=True)
 
 
 if __name__ == "__main__":
@@ -314,6 +337,8 @@ if __name__ == "__main__":
     arg = lambda k, d: next((a.split("=", 1)[1] for a in sys.argv if a.startswith(k + "=")), d)
     if cmd == "gen":
         gen(int(arg("--per-prop", "40")), int(arg("--seed", "1")))
+    elif cmd == "cross":
+        cross()
     elif cmd == "run":
         run(int(arg("--slots", "3")), [x for x in arg("--props", "").split(",") if x])
     else:
